@@ -7,6 +7,36 @@ use crate::state::*;
 use raft::eraftpb::{ConfState, Entry, Message, MessageType, Snapshot, SnapshotMetadata};
 use raft::StateRole;
 
+/// Follower-side `request_snapshot()`: a request that is accepted names the node's last index
+/// (a requested snapshot is installed unconditionally, so anything older would discard entries
+/// the node already acknowledged) and goes to the leader as a rejecting MsgAppendResponse.
+pub fn request_snapshot_step(s: &mut Src, sh: &Shape) {
+    let (mut r, g) = mk_raft(s, sh);
+    if s.bool() {
+        r.pending_request_snapshot = g.last();
+    }
+    let (term0, lead0) = (r.term, r.leader_id);
+    let pend0 = r.pending_request_snapshot;
+    let res = r.request_snapshot();
+    assert!(r.term == term0 && r.state == StateRole::Follower && r.raft_log.last_index() == g.last() && r.raft_log.committed == g.committed);
+    let eligible = lead0 != 0 && pend0 == 0 && g.last_term() == term0;
+    assert!(res.is_ok() == eligible, "request accepted exactly with a known leader, no request pending and a last entry of the current term");
+    if eligible {
+        assert!(r.pending_request_snapshot == g.last(), "requested index must cover everything the node holds");
+        assert!(r.msgs.len() == 1);
+        let m = &r.msgs[0];
+        assert!(m.get_msg_type() == MessageType::MsgAppendResponse && m.to == lead0 && m.reject);
+        assert!(m.request_snapshot == g.last() && m.request_snapshot >= g.committed, "snapshot request names an index below the node's last index");
+        assert!(m.reject_hint == g.last() && m.log_term == g.last_term() && m.index == g.committed);
+    } else {
+        assert!(r.msgs.is_empty() && r.pending_request_snapshot == pend0);
+    }
+    let possible = g.last_term() == term0;
+    vcover!(!possible || eligible, "request sent (where the shape admits it)");
+    vcover!(!eligible, "request dropped");
+    forget(r);
+}
+
 /// `idx` / `term_sel`: snapshot index and term (term_sel 0 = the local term at idx, making the
 /// snapshot "already matching"; otherwise the literal term).  `voters..`: its ConfState.
 /// `requested`: the follower had asked for a snapshot.  `follow_up`: afterwards a MsgAppend
